@@ -92,6 +92,17 @@ def run(ctx: core.Ctx):
             if r.shape != shape or not np.array_equal(back(r), V, equal_nan=True):
                 ctx.violation(f"{op}.compute/argument-form/{label}/values", {"op": op, "form": label}, "table", "differs",
                               note=f"{label} operands give other values than the same values in plain vectors")
+        # the same operands repeated into vectors of more than 4096 elements
+        kk = -(-forms.LONG // len(A))
+        ctx.count(1)
+        try:
+            rl = np.asarray(objs[op].compute(np.tile(A, kk), np.tile(B, kk)), dtype=float)
+            if rl.shape != (kk * len(A),) or not np.array_equal(rl, np.tile(V, kk), equal_nan=True):
+                j = int(np.flatnonzero(~((rl == np.tile(V, kk)) | (np.isnan(rl) & np.isnan(np.tile(V, kk)))))[0]) if rl.shape == (kk * len(A),) else 0
+                ctx.violation(f"{op}.compute/argument-form/long-vector/values", {"op": op, "a": float(np.tile(A, kk)[j]), "b": float(np.tile(B, kk)[j]), "index": j, "length": kk * len(A)}, float(np.tile(V, kk)[j]),
+                              float(rl[j]) if rl.size > j else str(rl.shape), note=f"in vectors of {kk * len(A)} elements the value at index {j} differs from the value of that pair alone")
+        except Exception as ex:
+            ctx.violation(f"{op}.compute/argument-form/long-vector/raises-{type(ex).__name__}", {"op": op}, "elementwise values", f"{type(ex).__name__}: {ex}")
         # Python ints are acceptable floats
         for ia, ib in ((0, 0), (0, 1), (1, 0), (1, 1)):
             ctx.count(1)
